@@ -21,7 +21,8 @@ UNITS = [dict(id="library_loader", harness="loader.c", entry="h_loader", sources
     pick("C01", ["mutex_new_free"]) + pick("C02", ["posix_new_free"]) + pick("C03", ["cond_new_free"]) + pick("C05", ["unref", "local_new_free", "get_tls_key", "create_full", "create_internal", "init_shutdown"]) + \
     pick("C06", ["new", "free", "lemma_recovery"]) + pick("C07", ["new", "free", "take_ownership_free"]) + pick("C08", ["new_free_own"]) + \
     pick("C10", ["new", "accept", "close", "sys_close", "getters_and_free", "connect"], "sock") + pick("C11", ["dispatch"]) + pick("C17", ["new_text"]) + \
-    pick("C18", ["dir", "error", "rwlock_general_new", "pmem_vtable", "ini_parse_allocfail", "ini_getter_allocfail_0", "ini_getter_allocfail_1", "ini_getter_allocfail_2", "ini_getter_allocfail_3", "tree_new", "hash_table_new", "time_profiler_new", "spinlock_new", "hash_ctx_md5", "hash_ctx_sha1", "hash_ctx_sha2_256", "hash_ctx_sha2_512", "hash_ctx_sha3_256", "hash_ctx_gost3411"])
+    pick("C18", ["dir", "error", "rwlock_general_new", "pmem_vtable", "ini_parse_allocfail", "ini_getter_allocfail_0", "ini_getter_allocfail_1", "ini_getter_allocfail_2", "ini_getter_allocfail_3", "tree_new", "hash_table_new", "time_profiler_new", "spinlock_new", "hash_ctx_md5", "hash_ctx_sha1", "hash_ctx_sha2_256", "hash_ctx_sha2_512", "hash_ctx_sha3_256", "hash_ctx_gost3411", "ht_listing_allocfail_0", "ht_listing_allocfail_1", "ht_listing_allocfail_2"]) + \
+    pick("C12", ["bst_insert", "bst_remove", "clear"])   # containers own what they were handed with a notifier: a replaced / removed / cleared pair is released exactly once (C14 obligations), nodes are freed once
 REQUIRE_CONFIGURED = ["plibraryloader-posix.c", "psocket.c", "pshm-posix.c", "psemaphore-posix.c"]
 TECHNIQUE = "CBMC contracts with a resource ledger in the environment models (heap blocks via allocation counters, descriptors, mappings, IPC names, native handles): per constructor/destructor pair and every error exit the ledger delta is a postcondition"
 LEVEL_TEXT = ("Per object kind, on the real code, for every outcome of every native call and with every allocation allowed to fail: a failed constructor leaves the ledger unchanged (no block, no "
